@@ -1307,9 +1307,23 @@ def run_impl(scen, workdir, times=1, params_seq=None, scrub=False):
             raise
         record([link_cmd_args, {"retval": link.signed.byproducts.get("return-value"),
                                 "materials": link.signed.materials, "products": link.signed.products}])
+        # an inspection records the verifier's working directory (the final product), whatever base path the verifying
+        # process has configured for recordings of its own
+        for side in (link.signed.materials, link.signed.products):
+            if "decoy.txt" in side or "product.txt" not in side:
+                wrong_dir.append("inspection %r recorded %s, the working directory holds product.txt" % (name, sorted(side)[:4]))
         return link
 
     outcomes = []
+    wrong_dir = []
+    import in_toto.settings as _settings
+    old_base = _settings.ARTIFACT_BASE_PATH
+    base_set = len(json.dumps(scen["root"], sort_keys=True, default=str)) % 4 == 1
+    if base_set:
+        # the verifying process has a base path configured (derived from the scenario, not from rng)
+        elsewhere = os.path.join(workdir, "elsewhere")
+        os.makedirs(elsewhere, exist_ok=True)
+        open(os.path.join(elsewhere, "decoy.txt"), "w").write("not the final product\n")
     old_cwd = os.getcwd()
     old_dt = vl.datetime.datetime
     FixedClock.NOW_US = scen["now_us"]
@@ -1339,6 +1353,9 @@ def run_impl(scen, workdir, times=1, params_seq=None, scrub=False):
                 for fn in os.listdir(cwd):
                     if fn.endswith(".link"):
                         os.remove(os.path.join(cwd, fn))
+            if base_set:
+                _settings.ARTIFACT_BASE_PATH = elsewhere     # put in place before every call
+            del wrong_dir[:]
             try:
                 summary = vl.in_toto_verify(md, copy.deepcopy(scen["keys"]), link_dir_path=linkdir,
                                             substitution_parameters=_as_passed(params, scen), inspect_timeout=5,
@@ -1356,12 +1373,15 @@ def run_impl(scen, workdir, times=1, params_seq=None, scrub=False):
             out["log"] = log[seen:]
             seen = len(log)
             out["exec"] = list(run_table)
+            if wrong_dir:
+                out["insp_wrong_dir"] = wrong_dir[0]
             after = _snapshot(md)
             out["after"] = after.get("signed")
             out["changed"] = after != before
             outcomes.append(out)
     finally:
         os.chdir(old_cwd)
+        _settings.ARTIFACT_BASE_PATH = old_base
         vl.datetime.datetime = old_dt
         in_toto.runlib.in_toto_run = real_run
         if zone:
@@ -1437,6 +1457,8 @@ def norm_model_outcome(ans):
 
 def compare(impl_out, model_out):
     """None if they agree, else a description"""
+    if impl_out.get("insp_wrong_dir"):
+        return "with a base path configured in the verifying process: " + impl_out["insp_wrong_dir"]
     if model_out.get("err") == "Unmodelled":
         return "unmodelled"
     if "load_err" in impl_out or "load_err" in model_out:
@@ -1509,6 +1531,7 @@ class Pin:
     def __init__(self, env):
         self.env = env
         self.steps, self.keys, self.files, self.dirs = [], {}, {}, {}
+        self.inspections, self.info = [], {"insp": [], "behave": {}, "variant": "honest"}
 
     @staticmethod
     def art(*names, salt=""):
@@ -1522,6 +1545,15 @@ class Pin:
 
     def store(self, entries):
         self.keys.update(entries)
+
+    def inspect(self, iname, workdir, behave="ok", em=None):
+        """an inspection that appends its id to the scenario's log (the same commands the generator uses)"""
+        from in_toto.models.layout import Inspection
+        logpath = os.path.join(workdir, "insp.log")
+        cmd = {"ok": "echo %s >> %s" % (iname, logpath), "fail": "echo %s >> %s; exit 1" % (iname, logpath)}[behave]
+        self.inspections.append(Inspection(name=iname, run=["sh", "-c", cmd], expected_materials=em or [], expected_products=[]))
+        self.info["insp"].append(iname)
+        self.info["behave"][iname] = behave
 
     def link(self, step, fname_id, signer, M=None, P=None, name=None, dsse=False, rewrite=None, faked=None, tamper=None):
         """file <step>.<fname_id[:8]>.link holding a link named [name or step].  signer: an sslib K, ("gpg", spec),
@@ -1547,7 +1579,7 @@ class Pin:
 
     def layout_file(self, owner, dsse=False):
         from in_toto.models.layout import Layout
-        md = make_md(Layout(steps=self.steps, inspect=[], keys=copy.deepcopy(self.keys), expires=EXPIRES), dsse)
+        md = make_md(Layout(steps=self.steps, inspect=list(self.inspections), keys=copy.deepcopy(self.keys), expires=EXPIRES), dsse)
         self.env.sign(md, owner)
         return to_file(md)
 
@@ -1563,7 +1595,7 @@ class Pin:
     def scenario(self, owner, workdir, tags=(), dsse=False, expect=None):
         return {"root": {"json": self.layout_file(owner, dsse)}, "dir": self.tree(), "keys": {owner.keyid: owner.pub},
                 "params": None, "now_us": NOW_US, "tags": list(tags), "logpath": os.path.join(workdir, "insp.log"),
-                "expect": expect}
+                "expect": expect, "layouts": {"": self.info}}
 
 
 KERNEL_SAMPLE_MAX_CHARS = 20000
